@@ -143,6 +143,7 @@ class Opt(object):
         self.extra = []      # [(form name, argv, projected value)] further command-line forms (const values)
         self.default = []
         self.derived_default = False
+        self.falsy = None    # "falsy"/"empty": file["v0"] is a file value that converts to something falsy / is empty
 
 
 def value_forms(flags, items):
@@ -230,6 +231,21 @@ def build_options(chk):
                 o.exp["f" + k] = [exp]
                 o.exp["c" + k] = [exp]
                 o.forms[k] = value_forms(fl, [cmd])
+            # a file value whose CONVERTED value is falsy (0, NOTSET -> 0) or, for text options, empty ("name ="):
+            # the file mentions the option, so this is the value that counts.  The unchanged code stores an empty
+            # text value as "" like any other text (nothing special), that is what `fv2` then stands for.
+            conv = kw.get("type")
+            if conv is None:
+                o.file["v0"], o.exp["fv0"], o.falsy = {"ini": "", "toml": ""}, [""], "empty"
+            else:
+                for text, native in (("0", 0), ("NOTSET", "NOTSET"), ("0.0", 0.0)):
+                    try:
+                        got = conv(text)
+                    except Exception:
+                        continue
+                    if not got:
+                        o.file["v0"], o.exp["fv0"], o.falsy = {"ini": text, "toml": native}, [pstr(got)], "falsy"
+                        break
             if kw.get("nargs") == "?" and "const" in kw:
                 # --color without a value: as last argument, before another option, before an existing path
                 o.extra.append(("bare-last", [fl[0]], pstr(kw["const"])))
@@ -580,11 +596,13 @@ class Plan(object):
         return self.n
 
     # ---- helpers
-    def vals(self, o, forced=None, cv1=None):
+    def vals(self, o, forced=None, cv1=None, fv2=None):
         v = {"d": o.default, "fv1": o.exp.get("fv1", [NONE]), "fv2": o.exp.get("fv2", [NONE]),
              "cv1": o.exp.get("cv1", [NONE]), "cv2": o.exp.get("cv2", [NONE]), "forced": [pstr(forced)]}
         if cv1 is not None:
             v["cv1"] = [cv1]
+        if fv2 is not None:
+            v["fv2"] = list(fv2)
         return v
 
     def argv_for(self, o, a, variant):
@@ -593,11 +611,11 @@ class Plan(object):
         forms = o.forms[a]
         return forms[variant % len(forms)]
 
-    def layer_probe(self, o, files, cmd, form, mode=None, mfiles=None, mcmd="absent", cv1=None):
+    def layer_probe(self, o, files, cmd, form, mode=None, mfiles=None, mcmd="absent", cv1=None, fv2=None):
         return {"row": "layer", "dest": o.dest, "okind": o.kind, "islist": o.islist, "pathy": o.pathy, "lower": o.lower,
                 "files": list(files), "cmd": cmd, "mfiles": list(mfiles or ["absent"] * len(files)), "mcmd": mcmd,
                 "hasmode": mode is not None, "mode": mode or "",
-                "vals": self.vals(o, MODES[mode][o.dest] if mode else None, cv1), "form": form}
+                "vals": self.vals(o, MODES[mode][o.dest] if mode else None, cv1, fv2), "form": form}
 
     def file_entries(self, layout, assigns, variant):
         """layout: [(where, name)], assigns: per file [(opt, 'v1'|'v2')]"""
@@ -626,14 +644,23 @@ class Plan(object):
                     v = self.tick()
                     form, argv = self.argv_for(o, c["cmd"], v)
                     self.config_spec(o, c, layout, v, form, argv)
+                if o.falsy and "v2" in c["files"]:
+                    # the file's v2 rendered as the falsy / empty value, once in an ini-style and once in a toml file
+                    last = max(k for k, a in enumerate(c["files"]) if a == "v2")
+                    for fmt in ("ini", "toml"):
+                        fitting = [l for l in layouts if fmt_of(l[last][1]) == fmt]
+                        if fitting:
+                            v = self.tick()
+                            form, argv = self.argv_for(o, c["cmd"], v)
+                            self.config_spec(o, c, fitting[v % len(fitting)], v, "%s+file:%s" % (form, o.falsy), argv, falsy=True)
                 if c["cmd"] == "v1":                      # further spellings with their own value (const forms)
                     for form, argv, exp in o.extra:
                         layout = layouts[start % len(layouts)]
                         self.config_spec(o, c, layout, self.tick(), form, argv, cv1=exp)
 
-    def config_spec(self, o, c, layout, v, form, argv, cv1=None):
-        assigns = [([(o, a)] if a != "absent" else []) for a in c["files"]]
-        probes = [self.layer_probe(o, c["files"], c["cmd"], form, cv1=cv1)]
+    def config_spec(self, o, c, layout, v, form, argv, cv1=None, falsy=False):
+        assigns = [([(o, "v0" if (falsy and a == "v2") else a)] if a != "absent" else []) for a in c["files"]]
+        probes = [self.layer_probe(o, c["files"], c["cmd"], form, cv1=cv1, fv2=o.exp["fv0"] if falsy else None)]
         depth = DEPTHS[v % 2]
         mk = []
         if "@existing_dir" in argv:
@@ -1089,7 +1116,8 @@ def run(chk):
         chk.sample({"input": json.loads(describe(spec, k)[1]) if spec["type"] in ("config", "readcfg") else describe(spec, k)[1],
                     "observed": observed_of(byid[rid])})
     chk.rule = ("every option of behave's config-file schema x every TLC layer case of its kind (file assignments in {absent,v1,v2}^n, "
-                "n<=%d, x command line in {absent,v1,v2}) x file name/location variants; histories of 2 (thorough: also 3) constructions in one "
+                "n<=%d, x command line in {absent,v1,v2}) x file name/location variants, the file's v2 also as the value that converts to "
+                "something falsy (0, NOTSET) or is empty, in ini-style and toml files; histories of 2 (thorough: also 3) constructions in one "
                 "process (first reads a file assigning the option; later ones: no file, a file omitting/assigning it, load_config=False, any "
                 "command line); a value-less colour switch (--color, --no-color, -C) at every position of every command line of up to 2 "
                 "occurrences of 2 other options (incl. -D defines), and inside the seeded subsets; option x forcing mode switch pairs; seeded "
